@@ -226,7 +226,7 @@ pub fn eval(c: &PCase) -> CaseOutcome {
     let flat = flatten(&c.prog);
     let lines: Vec<usize> = rendered.flat_offsets.iter().map(|o| rendered.line_of(*o)).collect();
     let image = data_image(&c.prog.data);
-    let cfg = RunCfg { interpreted: false, script: &c.script, lines: &lines, max_steps: 10_000, input_lines: None };
+    let cfg = RunCfg { interpreted: false, script: &c.script, lines: &lines, max_steps: 10_000, input_lines: None, buf_fill: None };
     let rr = ref_run(&flat, &image, &cfg, &Quirks::none());
     let stdin = script_bytes(&c.script);
     let out = run_cli(rendered.text.as_bytes(), if c.script.is_empty() { Stdin::Closed } else { Stdin::Data(&stdin) }, false, 4 << 20, 20_000);
